@@ -1,5 +1,7 @@
-Require Import CodecRun PoseRead.
+Require Import Tree CodecRun PoseRead C06_GraphRun.
+From Coq Require Import ZArith.
 From Coq Require Import Extraction ExtrOcamlBasic.
 Extraction Language OCaml.
-Definition dispatch := dispatch_with no_legacy.
+Definition dispatch (t : tree) : tree :=
+  if (t_z (t_nth 0 t) =? 9)%Z then graph_dispatch no_legacy t else dispatch_with no_legacy t.
 Extraction "../runner/build/codec/model.ml" dispatch.
